@@ -27,11 +27,12 @@ TInit == /\ tid \in 1..Len(Traces)
 Consume == l < Len(Evs) /\ l' = l + 1 /\ tid' = tid
 
 TNext == Consume /\
-    \/ (E.a = "get"    /\ Get1(E.i))
-    \/ (E.a = "set"    /\ Set1(E.i, E.v))
-    \/ (E.a = "get2"   /\ Get2(E.i, E.j))
-    \/ (E.a = "getrow" /\ GetRow(E.i))
-    \/ (E.a = "set2"   /\ Set2(E.i, E.j, E.v))
+    \/ (E.a = "get"     /\ Get1(E.i, E.ik))
+    \/ (E.a = "set"     /\ Set1(E.i, E.ik, E.v))
+    \/ (E.a = "get2"    /\ Get2(E.i, E.ik, E.j, E.jk))
+    \/ (E.a = "getrow"  /\ GetRow(E.i, E.ik))
+    \/ (E.a = "set2"    /\ Set2(E.i, E.ik, E.j, E.jk, E.v))
+    \/ (E.a = "copyrow" /\ CopyRow(E.i, E.j, E.jk))
 
 TSpec == TInit /\ [][TNext]_tvars
 
